@@ -50,7 +50,9 @@ func init() { shed.Register(c28Driver, shedldb.Driver{}) }
 
 // ---- identities: real key-derived overlays with signed underlay records ----
 
-const c28Letters = "ABCDX" // X = a node that is not part of the network (unreachable target)
+const c28Letters = "ABCDEX" // X = a node that is not part of the network (unreachable target)
+
+const c28X = 5 // index of X
 
 type c28Ident struct {
 	overlay boson.Address
@@ -146,6 +148,10 @@ var c28Topos = []c28Topo{
 	{"cycle4", 4, [][2]int{{0, 1}, {1, 2}, {2, 3}, {3, 0}}},
 	{"cycle4+chord", 4, [][2]int{{0, 1}, {1, 2}, {2, 3}, {3, 0}, {0, 2}}},
 	{"complete4", 4, [][2]int{{0, 1}, {0, 2}, {0, 3}, {1, 2}, {1, 3}, {2, 3}}},
+	// 5 nodes: A-B, A-C, B-C, B-D, C-D, D-E. The smallest shape found in which a response is
+	// forwarded back to a node that is already on its path (B and C are each other's pending
+	// requester: B gets [E,D,B,C] from C), i.e. where onRouteResp's self-in-path discard matters.
+	{"kite5", 5, [][2]int{{0, 1}, {0, 2}, {1, 2}, {1, 3}, {2, 3}, {3, 4}}},
 }
 
 // one kademlia per node and topology, shared (read-only) by all executions of
@@ -448,6 +454,7 @@ var c28QuickPairs = map[string][]string{
 	"cycle4":       {"AC", "AB", "AX"},
 	"cycle4+chord": {"BD", "AB", "AC", "BA", "AX", "BX"},
 	"complete4":    {"AB", "AX"},
+	"kite5":        {"AE"},
 }
 
 func c28Scenarios(thorough bool) []c28Scenario {
@@ -455,7 +462,10 @@ func c28Scenarios(thorough bool) []c28Scenario {
 	add := func(ti, i, target int) {
 		t := c28Topos[ti]
 		for _, ttl := range []int32{1, 2, 3, 10} {
-			if !thorough && t.name == "complete4" && (ttl == 1 || ttl == 10 || (ttl == 3 && target == 4)) {
+			if t.name == "kite5" && (ttl < 3 || (!thorough && ttl != 10)) {
+				continue // the far end is 3 hops away; quick tier: MaxTTL 10 only
+			}
+			if !thorough && t.name == "complete4" && (ttl == 1 || ttl == 10 || (ttl == 3 && target == c28X)) {
 				continue // quick tier: the by far largest topology only with MaxTTL 2 (and 3 for a reachable target)
 			}
 			// alpha >= max degree: getNeighbor never has to pick a random subset
@@ -475,11 +485,17 @@ func c28Scenarios(thorough bool) []c28Scenario {
 			}
 			continue
 		}
+		if t.name == "kite5" {
+			for _, p := range []string{"AE", "EA", "CE", "AX"} {
+				add(ti, strings.IndexByte(c28Letters, p[0]), strings.IndexByte(c28Letters, p[1]))
+			}
+			continue
+		}
 		for i := 0; i < t.n; i++ {
 			for tg := 0; tg <= t.n; tg++ {
 				target := tg
 				if tg == t.n {
-					target = 4 // X
+					target = c28X
 				}
 				if target != i {
 					add(ti, i, target)
@@ -684,7 +700,7 @@ func TestVerifC28(t *testing.T) {
 			} else if pend {
 				x.Tag("pending-entries-left-without-drop")
 			}
-			if sc.target == 4 {
+			if sc.target == c28X {
 				cls += "+unreachable-target"
 			}
 			x.Outcome(cls)
